@@ -365,6 +365,14 @@ func init() {
 			byName[c2.Name] = &c2
 			skels = append(skels, &Skeleton{Name: c2.Name, Family: "F-hash"})
 		}
+		quickHash := map[string]*EqualCase{}
+		if thorough {
+			for _, c := range equalCases(p, false) {
+				c2 := *c
+				c2.Name = "F-hash/" + c.Name[len("F-equal/"):]
+				quickHash[c2.Name] = &c2
+			}
+		}
 		// (c) enum / const with symbolic listed values
 		enumByName := map[string]*EnumCase{}
 		mkT := func(depth, maxLen, keys int, f func(tm *sx.Tmpl)) *sx.Tmpl {
@@ -412,7 +420,12 @@ func init() {
 		}
 		skels, results := RunSkeletons(cc.P, skels, cc.Workers, cc.Timeout, func(w *Worker, sk *Skeleton) *SkelResult {
 			if c, ok := byName[sk.Name]; ok {
-				return w.RunEqualCase(c, "C12", true)
+				res := w.RunEqualCase(c, "C12", true)
+				if q, okq := quickHash[sk.Name]; okq && thorough && budgetExceeded(res) && len(res.Findings) == 0 {
+					res = w.RunEqualCase(q, "C12", true)
+					res.ReducedBound = "decided on the quick-tier templates (the thorough templates exceeded the path budget)"
+				}
+				return res
 			}
 			if c, ok := enumByName[sk.Name]; ok {
 				return w.RunEnumCase(c, "C12")
@@ -625,9 +638,20 @@ func init() {
 		// (d) Resolve on reference topologies incl. failing loaders (native scaffold: must return, not panic)
 		rf := FamilyRef(cc.Thorough(), cc.Seed)
 		cc.RunValidateFamily(r, rf, VOptions{})
+		// (e) For/ForType on the declared type family, recursive types and unsupported kinds at any
+		// depth, with every option combination of the scaffold: must return (native scaffold)
+		{
+			n, bad := ForScaffold()
+			r.Extra["scaffold_for_types"] = n
+			for _, b := range bad {
+				if strings.Contains(b, "panicked") || strings.Contains(b, "did not return") {
+					r.Findings = append(r.Findings, Finding{Property: "C10", Kind: "for-panic", Expected: "For returns a schema or an error", Observed: b})
+				}
+			}
+		}
 		r.Bounds = append(r.Bounds, boundsValidate...)
 		r.Bounds = append(r.Bounds, "json.Number instances include the state \"text that math/big cannot parse\" (realised as 1e9999999), for which only panics are judged; every feasible path that ends in a Go panic (explicit panic, assert, run-time error, reflect-model panic) or exhausts the step/depth budget is a violation candidate, replayed natively under recover; Schema numeric fields range over the float model plus +Inf/-Inf/NaN and the full int range")
-		r.Outside = append(r.Outside, "Unmarshal on arbitrary bytes (inside encoding/json); For/ForType on arbitrary types (types are declared programs; see C16); Schema graphs with shared or cyclic pointers (checkStructure is exercised natively by C20's scaffold only)")
+		r.Outside = append(r.Outside, "Unmarshal on arbitrary bytes (inside encoding/json); For/ForType beyond the declared type family of the scaffold (types are declared programs; see C16); Schema graphs with shared or cyclic pointers (checkStructure is exercised natively by C20's scaffold only)")
 	}
 }
 
@@ -751,13 +775,30 @@ func init() {
 			if k, ok := kernels[sk.Name]; ok {
 				return k.run(w)
 			}
-			return w.RunEquivCase(byName[sk.Name], "C05")
+			c := byName[sk.Name]
+			res := w.RunEquivCase(c, "C05")
+			if budgetExceeded(res) && c.Tm != nil && c.Tm.Depth > 1 {
+				// the deep template does not fit the path budget for this schema: decide it on the
+				// quick template instead and say so (a reduced bound, never a silent cut)
+				small := *c
+				small.Tm = &sx.Tmpl{Depth: 1, MaxLen: 2, Keys: c.Tm.Keys, KeysFor: c.Tm.KeysFor}
+				res = w.RunEquivCase(&small, "C05")
+				res.ReducedBound = "instance template reduced to depth 1 (the depth-2 template exceeded the path budget)"
+			}
+			return res
 		})
+		reduced := 0
 		for i, s := range results {
+			if s.ReducedBound != "" {
+				reduced++
+			}
 			for j := range s.Findings {
 				s.Findings[j].Class = ClassifyFinding(s.Findings[j])
 			}
 			r.AddSkel(skels[i], s)
+		}
+		if reduced > 0 {
+			r.Bounds = append(r.Bounds, fmt.Sprintf("%d schemas were decided on the depth-1 instance template because the depth-2 template exceeded the per-schema path budget", reduced))
 		}
 		r.Bounds = append(r.Bounds, boundsValidate...)
 		r.Bounds = append(r.Bounds, "behavioural equivalence: for each schema (documents of the F-single / F-draft7 / F-nest families; Go-constructed Schema values with each exported field nil / empty-but-present / null constant / one element / nested, alone, paired with five companions, and nested) S' = Unmarshal(Marshal(S)) is computed natively, both are resolved and imported, and the real Validate runs on both with one symbolic instance T(2,2,3) per path: the two verdicts must coincide on every path; scaffold (native, per schema): the second marshal is byte-identical, Resolve agrees")
